@@ -2219,7 +2219,7 @@ func (x *Extractor) knownOrdered(d *RF) bool {
 	if c, ok := d.D.isConst(); !ok || c.Sign() == 0 {
 		return false
 	}
-	for _, t := range d.N.terms {
+	for _, t := range d.N.sortedTerms() {
 		for i, v := range t.vars {
 			if t.exps[i] != 1 || len(t.vars) != 1 {
 				return false
@@ -2318,7 +2318,7 @@ func solveZero(s *Sym, d *RF, exprs ...*RF) map[AtomID]*RF {
 	if c, ok := d.D.isConst(); !ok || c.Sign() == 0 {
 		return nil
 	}
-	for _, t := range d.N.terms {
+	for _, t := range d.N.sortedTerms() {
 		if len(t.vars) != 1 || t.exps[0] != 1 {
 			continue
 		}
@@ -2349,7 +2349,7 @@ func solveZero(s *Sym, d *RF, exprs ...*RF) map[AtomID]*RF {
 		}
 		// the atom must not occur elsewhere in d
 		occ := 0
-		for _, t2 := range d.N.terms {
+		for _, t2 := range d.N.sortedTerms() {
 			for _, v := range t2.vars {
 				if v == id {
 					occ++
